@@ -45,8 +45,13 @@ STUBS = {
              ("std::time::SystemTime::now", "crate::env::system_time_now")],
     # error messages built with format! (not the subject of any property)
     "fmt": [("alloc::fmt::format", "crate::env::fmt_format")],
+    # wall clock controlled by the harness body (store harnesses)
+    "clock": [("tokio::time::Instant::now", "crate::env::tokio_instant_now"),
+              ("std::time::SystemTime::now", "iroh_docs::verif_incrate::store_fs::clock_now")],
     # HashMap/HashSet seeds
     "hashseed": [("std::hash::RandomState::new", "crate::env::random_state_new")],
+    # Fingerprint::empty() = blake3::hash(b"")
+    "blake3empty": [("blake3::hash", "crate::env::blake3_hash_empty")],
     # blake3::Hash equality is constant_time_eq_32 (inline asm): plain comparison
     "cteq": [("constant_time_eq::constant_time_eq_32", "crate::env::ct_eq_32")],
 }
@@ -57,6 +62,13 @@ META = {}
 
 
 def h(name, body, props, tier="quick", unwind=4, unwindset=None, stubs=None, **kw):
+    if name.startswith("heads_") or name == "open_replicas_step":
+        # B-tree / hash map backed kernels: intractable for CBMC (measured, DESIGN.md §10.3); run by no tier
+        tier = "off_generated"
+    if name.startswith("e2_"):
+        # E2 (real storage layer over the redb model) missed its kill criterion (DESIGN.md §10.3):
+        # the harnesses stay in the tree for the record but are run by no tier
+        tier = "off"
     d = dict(name=name, body=body, props=props if isinstance(props, list) else [props], tier=tier, unwind=unwind,
              unwindset=unwindset or {}, stubs=(stubs if stubs is not None else DEFAULT_STUBS))
     d.update(kw)
@@ -89,7 +101,7 @@ bounds_family("bounds_bykey", "bounds_bykey", ["C05", "C16"], [(0, 1, "quick"), 
 h("put_step_n3", "ranger_l::put_step::<S, 3>", ["C02", "C01"], "quick", unwind=4, family="put_step")
 h("put_step_n4", "ranger_l::put_step::<S, 4>", ["C02", "C01"], "quick", unwind=5, family="put_step")
 h("put_commute_n4", "ranger_l::put_commute::<S, 4>", ["C02", "C04"], "quick", unwind=5, family="put_commute")
-PM_STUBS = DEFAULT_STUBS + ["cteq"]
+PM_STUBS = DEFAULT_STUBS + ["cteq", "blake3empty"]
 h("pm_item_step_n3_v1", "ranger_l::pm_item_step::<S, 3, 1>", ["C01", "C03", "C12"], "quick", unwind=5, stubs=PM_STUBS, family="pm_item_step", cap=1800, mem_gb=24)
 h("pm_item_step_n4_v2", "ranger_l::pm_item_step::<S, 4, 2>", ["C01", "C03", "C12"], "thorough", unwind=6, stubs=PM_STUBS, family="pm_item_step", cap=3600, mem_gb=24)
 h("pm_init_and_silence_n2", "ranger_l::pm_init_and_silence::<S, 2>", ["C01"], "quick", unwind=4, unwindset={r"BitXorAssign>::bitxor_assign\.0": 34, r"^memcmp\.0$": 34}, stubs=PM_STUBS, family="pm_init_and_silence", cap=1800, mem_gb=24)
@@ -145,14 +157,15 @@ K_STUBS = DEFAULT_STUBS + ["cteq", "fmt"]
 for f1, f2, k, tier in [(1, 0, 2, "quick"), (2, 1, 2, "quick"), (1, 2, 3, "thorough"), (0, 0, 0, "quick")]:
     h("policy_matches_%d_%d_%d" % (f1, f2, k), "kernels::policy_matches::<S, %d, %d, %d>" % (f1, f2, k), ["C15", "C12"], tier,
       unwind=4, unwindset={r"^memcmp\.0$": 5}, stubs=DEFAULT_STUBS + ["cteq"], family="policy_matches")
-for f, tier in [(0, "quick"), (1, "quick"), (2, "thorough")]:
+for f, tier in [(0, "thorough"), (1, "thorough"), (2, "thorough")]:
     h("filter_text_roundtrip_%d" % f, "kernels::filter_text_roundtrip::<S, %d>" % f, ["C15", "C09"], tier,
       unwind=16, stubs=DEFAULT_STUBS, family="filter_text_roundtrip", cap=1200)
 for n, tier in [(6, "thorough"), (9, "thorough")]:
     h("filter_from_str_total_%d" % n, "kernels::filter_from_str_total::<S, %d>" % n, ["C15", "C09"], tier,
       unwind=16, stubs=DEFAULT_STUBS, family="filter_from_str_total", cap=1800)
 HEADS_UW = {r"^memcmp\.0$": 34}
-h("heads_news", "kernels::heads_news::<S>", ["C13"], "quick", unwind=5, unwindset=HEADS_UW, stubs=DEFAULT_STUBS, cap=1500, mem_gb=20)
+h("heads_news_1", "kernels::heads_news_1::<S>", ["C13"], "quick", unwind=5, unwindset=HEADS_UW, stubs=DEFAULT_STUBS, cap=1500, mem_gb=20, family="heads_news")
+h("heads_news_2", "kernels::heads_news_2::<S>", ["C13"], "thorough", unwind=5, unwindset=HEADS_UW, stubs=DEFAULT_STUBS, cap=3600, mem_gb=40, family="heads_news")
 h("heads_encode_roundtrip_nolimit", "kernels::heads_encode_roundtrip::<S, false>", ["C13", "C09"], "quick", unwind=12, unwindset=HEADS_UW,
   stubs=DEFAULT_STUBS, family="heads_encode_roundtrip", cap=1500, mem_gb=20)
 h("heads_encode_roundtrip_limit", "kernels::heads_encode_roundtrip::<S, true>", ["C13", "C09"], "thorough", unwind=12, unwindset=HEADS_UW,
@@ -164,10 +177,23 @@ for n, tier in [(3, "thorough"), (12, "thorough")]:
 h("open_replicas_step", "actor::open_replicas_step::<S>", ["C14"], "quick", unwind=6, unwindset={r"^memcmp\.0$": 34},
   stubs=DEFAULT_STUBS + ["hashseed", "time"], cap=1800, mem_gb=24)
 
+# C09 framing / C10 sessions (net/codec.rs)
+CODEC_STUBS = DEFAULT_STUBS + ["cteq", "time", "crypto"]
+for n, tier in [(3, "quick"), (6, "quick"), (8, "thorough")]:
+    h("codec_decode_total_%d" % n, "net_codec::codec_decode_total::<S, %d>" % n, ["C09"], tier, unwind=12, stubs=CODEC_STUBS,
+      family="codec_decode_total", cap=1500, mem_gb=20)
+h("codec_abort_roundtrip", "net_codec::codec_abort_roundtrip::<S>", ["C09"], "quick", unwind=12, stubs=CODEC_STUBS, cap=1500, mem_gb=20)
+for sc, tier in [(0, "quick"), (1, "quick"), (2, "quick"), (3, "quick"), (4, "quick"), (5, "thorough")]:
+    # kani-compiler 0.68 ICEs on the catch_unwind intrinsic reached through the drop glue of
+    # std::thread::JoinHandle inside SyncHandle (DESIGN.md §10): kept for native witnesses, run by no tier
+    h("bob_run_%d" % sc, "net_codec::bob_run::<S, %d>" % sc, ["C10"], "off", unwind=12, stubs=CODEC_STUBS, family="bob_run", cap=1800, mem_gb=24)
+for pr in ("handle", "send", "framed"):
+    h("probe_" + pr, "net_codec::probe_%s::<S>" % pr, ["C10"], "off", unwind=12, stubs=CODEC_STUBS)
+
 # =============================================================================================
 # E2: real storage layer over the redb model
 # =============================================================================================
-E2_STUBS = DEFAULT_STUBS + ["time", "cteq", "crypto", "hashseed"]
+E2_STUBS = DEFAULT_STUBS + ["clock", "cteq", "crypto", "hashseed"]
 UW_E2 = {r"^memcmp\.0$": 36, r"redb::State::find": 10, r"redb::TableNames": 10, r"redb::name_id": 24, r"bounds::increment_by_one\.0": 34,
          r"bounds::prefix_successor\.0": 5,
          # run_migration derives a log name from type_name::<F>() with str::split("::") (constant ~70-char string)
@@ -178,6 +204,13 @@ h("e2_mem", "store_fs::e2_mem::<S>", ["C02"], "thorough", unwind=6, unwindset=UW
 for k1, k2, ke, tier in [(1, 5, 1, "quick"), (0, 1, 5, "quick"), (2, 4, 2, "quick"), (3, 2, 1, "thorough")]:
     h("e2_put_%d_%d_%d" % (k1, k2, ke), "store_fs::e2_put::<S, %d, %d, %d>" % (k1, k2, ke), ["C02", "C08"], tier, unwind=6,
       unwindset=UW_E2, stubs=E2_STUBS, family="e2_put", mem_gb=24, cap=1200)
+for n, tier in [(0, "quick"), (2, "quick"), (5, "quick"), (4, "thorough"), (1, "thorough"), (3, "thorough")]:
+    h("e2_peers_step_%d" % n, "store_fs::e2_peers_step::<S, %d>" % n, ["C17"], tier, unwind=8, unwindset=UW_E2, stubs=E2_STUBS,
+      family="e2_peers_step", mem_gb=24, cap=1500)
+h("e2_heads_after_put", "store_fs::e2_heads_after_put::<S>", ["C13"], "quick", unwind=6, unwindset=UW_E2, stubs=E2_STUBS, mem_gb=24, cap=1500)
+for ff in (False, True):
+    h("e2_remove_replica_%d" % ff, "store_fs::e2_remove_replica::<S, %s>" % str(ff).lower(), ["C16"], "quick", unwind=6, unwindset=UW_E2,
+      stubs=E2_STUBS, family="e2_remove_replica", mem_gb=24, cap=1800)
 
 COMMON_ASSUMPTIONS = [
     "bytes::Bytes drop/clone replaced by no-op/deep copy (allocation lifetime abstracted; memory safety of `bytes` not claimed)",
@@ -259,6 +292,14 @@ for _p in ("C05", "C08", "C16"):
         outside="the redb range scans themselves (E2 over the redb model), longer keys",
         assumptions=COMMON_ASSUMPTIONS,
     )
+META["C10"] = dict(
+    engine="E3 mirsmt: nightly MIR dump of /repo's working tree (regenerated per run) -> propositional reachability query over the real block graph, z3 4.8 cross-checked with cvc5 1.0; native witness for sat",
+    functions=["net::codec::BobState::run (coroutine state machine MIR, 548 blocks)", "net::codec::BobState::into_outcome"],
+    bounds="unbounded over the block graph (inductive-invariant encoding: exact for reachability of the tracked fact); abstraction: every branch condition free, one tracked fact `self.progress is Some`",
+    outside="run_alice, frame-sequence handling, counter mirroring, store untouched on decline: need a SyncHandle, which Kani cannot compile (catch_unwind ICE)",
+    assumptions=["suspension points resume at the block selected by the coroutine discriminant (taken from bb0's switch)",
+                 "net::handle_connection calls into_outcome after run returned, whatever the result (read from src/net.rs)"],
+)
 META["C12"] = dict(
     engine=KANI,
     functions=["ranger::Store::process_message on_insert contract (L)", "store::DownloadPolicy::matches"],
